@@ -402,3 +402,7 @@ impl Metadata {
         }
     }
 }
+
+#[cfg(scylla_verif)]
+#[allow(missing_docs)]
+pub use merge_channel::verif_hooks as verif_merge_channel;
